@@ -16,7 +16,7 @@ WARM = ["daily", "hourly"]
 RULE = (
     "Cases: family (daily legacy/current, billing, hourly) x a generated noisy baseline carrying a set of 0-2 sufficiency "
     "defects from {too short, too long, usage gaps > 10%, temperature gaps > 10%, one month < 90% temperature, negative gas "
-    "usage, poor fit} x ignore_disqualification at fit x at predict x stored-and-reloaded or not x reporting argument in {own "
+    "usage, poor fit, a span ending in a (season, weekend) group of 1-4 days} x ignore_disqualification at fit x at predict x stored-and-reloaded or not x reporting argument in {own "
     "reporting type, own baseline object, another family's data object, same type in another timezone} x fitted or unfitted "
     "model. Oracle (decision table): fit raises DataSufficiencyError iff the data carries a disqualification and the flag is "
     "false, otherwise returns a fitted model (any other exception is a violation); model disqualifications = data "
@@ -30,7 +30,9 @@ ASSUMPTIONS = [
     "when two reasons to raise coincide either exception is accepted",
     "which defects produce a disqualification is C10's subject; here the data object's own verdict feeds the table",
 ]
-DEFECTS = ["short", "long", "gaps_u", "gaps_t", "month_t", "neg_gas", "poor", "very_short"]
+DEFECTS = ["short", "long", "gaps_u", "gaps_t", "month_t", "neg_gas", "poor", "very_short", "small_group"]
+# first weekends of a season (default maps): the span ends on the Saturday (1 weekend day in the new season), the Sunday (2) or a week later (3-4)
+SEASON_WEEKENDS = ["2018-03-03", "2018-06-02", "2018-10-06", "2018-11-03", "2019-03-02", "2019-06-01"]
 OTHER_TZ = {"America/Chicago": "Europe/London", "UTC": "America/Chicago"}
 
 
@@ -45,6 +47,9 @@ def cases(draw, family=None):
     b["ghi"] = False
     c = {"kind": "gate", "baseline": b}
     c["defects"] = sorted(set(draw(st.lists(st.sampled_from(DEFECTS), max_size=2))))
+    if family == "daily_current" and draw(st.booleans()):
+        c["defects"] = sorted(set(c["defects"] + ["small_group"]) - {"very_short", "long"})
+    c["group_end"] = [draw(st.sampled_from(SEASON_WEEKENDS)), draw(st.sampled_from([0, 1, 1, 7]))]
     c["ign_fit"] = draw(st.booleans())
     c["ign_pred"] = draw(st.booleans())
     c["stored"] = draw(st.booleans())
@@ -63,6 +68,11 @@ def defective_frame(c):
         b["n"] = 200 if fam != "hourly" else 100
     elif "long" in d:
         b["n"] = 400
+    if "small_group" in d and fam != "hourly":
+        # the last (season, weekend) group has 1, 2 or 3-4 days
+        end = pd.Timestamp(c["group_end"][0]) + pd.Timedelta(days=c["group_end"][1])
+        b["n"] = min(b["n"], 300)
+        b["start_day"] = (end - pd.Timestamp("2017-01-01")).days - b["n"] + 1
     df = zoo.raw_frame(b)
     rng = np.random.default_rng(b["noise_seed"] + 17)
     n = len(df)
@@ -144,6 +154,19 @@ def judge(c, rec):
         rec.violation(fam + "/model-dq-differs-from-data-dq", c, "data %s, model %s" % (data_dq, model_dq))
     if model_dq.count(poor) > 1:
         rec.violation(fam + "/poor-fit-entry-duplicated", c, str(model_dq))
+    # the poor-fit entry is present exactly when the fit misses its threshold(s), whatever flag fit() was given
+    try:
+        if fam == "hourly":
+            bm = m.baseline_metrics
+            cv, pn = bm.cvrmse_adj, bm.pnrmse_adj
+            poor_fit = not ((cv is not None and cv < m.settings.cvrmse_threshold) or (pn is not None and pn < m.settings.pnrmse_threshold))
+        else:
+            poor_fit = bool(m.error["CVRMSE"] > m.settings.cvrmse_threshold)
+        if poor_fit != (poor in model_dq):
+            rec.violation(fam + "/poor-fit-entry-wrong", c, "fit misses its threshold=%s but poor-fit disqualification present=%s (fit flag %s; warnings %s)" % (
+                poor_fit, poor in model_dq, c["ign_fit"], [w.qualified_name for w in m.warnings if "model_fit" in w.qualified_name]))
+    except AttributeError:
+        pass
     # ---- storage
     Model = zoo.model_class(fam)
     if c["stored"]:
@@ -214,7 +237,8 @@ def shards(tier, seed):
         out.append({"family": "billing", "n": 12 if q else 120, "seed": mix(seed, ID, "billing", i)})
     for i in range(6):
         out.append({"family": "hourly", "n": 7 if q else 70, "seed": mix(seed, ID, "hourly", i)})
-    out.append({"family": "daily_current", "n": 3 if q else 20, "seed": mix(seed, ID, "daily_current")})
+    for i in range(2):
+        out.append({"family": "daily_current", "n": 5 if q else 40, "seed": mix(seed, ID, "daily_current", i)})
     return out
 
 
